@@ -30,6 +30,13 @@ Theorem C08_regex_side_is_fold_literal : forall p t i,
 Proof. exact re_preds_is_fold_literal. Qed.
 Print Assumptions C08_regex_side_is_fold_literal.
 
+(** The case variants of a trigram used by the prefilter ([variants3] = product of the three orbits; compared with the real
+    generateCaseNgrams by the second runner) are exactly the triples the model's prefilter predicates accept. *)
+Theorem C08_case_variants_are_orbit_products : forall a b c x y z,
+  In (x, y, z) (variants3 a b c) <-> orbit_eq a x = true /\ orbit_eq b y = true /\ orbit_eq c z = true.
+Proof. exact variants3_spec. Qed.
+Print Assumptions C08_case_variants_are_orbit_products.
+
 (** The full statement (all literal patterns, all texts) is refuted: final sigma.  Pattern "ςab" against the text
     "σab": the regexp evaluation matches bytes [0,4), the substring evaluation matches nothing (ToLower ς = ς <> σ). *)
 Theorem C08_all_unicode_refuted : exists sel p t, substr_ci sel p t <> regex_ci p t.
@@ -52,6 +59,9 @@ Example C08_disagree_set :
   length disagree_runes = 66%nat /\ firstn 7 disagree_runes = [73; 83; 105; 115; 181; 304; 383]%N /\
   tolower_fold_agree 107 = true /\ tolower_fold_agree 8490 = true /\ tolower_fold_agree 962 = false.
 Proof. vm_compute. repeat split. Qed.
+Example C08_variants_example :   (* k a σ : 3 x 2 x 3 variants, among them KELVIN-SIGN A final-sigma *)
+  length (variants3 107 97 963) = 18%nat /\ existsb (tri_eqb (8490, 65, 962)) (variants3 107 97 963) = true.
+Proof. vm_compute. split; reflexivity. Qed.
 Example C08_nonvacuous_agree :
   let p := [233; 107; 454]%N in                       (* é k ǆ *)
   let t := [201; 8490; 452; 10; 233; 75; 453]%N in      (* É K(Kelvin) Ǆ \n é K ǅ *)
